@@ -144,3 +144,38 @@ extern "C" void h_eps_krw_vertical(void) {
     if (ku == ukrwr && s > kw[1]) CEQ(ks, skrwr);
 #endif
 }
+
+// ---- inverse curves: Inv(f(Sw)) = Sw wherever the tabulated curve is strictly monotone (krn and pc are tabulated descending in Sw)
+extern "C" void h_inverse(void) {
+    Table t = mktable();
+    for (int i = 1; i < NT; ++i) ASSUME(t.krw[i] > t.krw[i - 1] && t.krn[i] < t.krn[i - 1] && t.pc[i] < t.pc[i - 1]);
+    auto p = mkeff(t);
+    double s = verif_nondet_real(); ASSUME(s >= t.sw[0] && s <= t.sw[NT - 1]);
+    CEQ(Eff::twoPhaseSatKrwInv(*p, Eff::twoPhaseSatKrw(*p, s)), s);
+    CEQ(Eff::twoPhaseSatKrnInv(*p, Eff::twoPhaseSatKrn(*p, s)), s);
+    CEQ(Eff::twoPhaseSatPcnwInv(*p, Eff::twoPhaseSatPcnw(*p, s)), s);
+    for (int i = 0; i < NT; ++i) { CEQ(Eff::twoPhaseSatKrnInv(*p, t.krn[i]), t.sw[i]); CEQ(Eff::twoPhaseSatKrwInv(*p, t.krw[i]), t.sw[i]); }
+}
+// ---- EclEpsScalingPoints::init: the scaling points of each two-phase system in terms of its wetting-phase saturation
+
+extern "C" void h_points_init(void) {
+    Opm::EclEpsScalingPointsInfo<double> e;
+    e.Swl = verif_nondet_real(); e.Sgl = verif_nondet_real(); e.Swcr = verif_nondet_real(); e.Sgcr = verif_nondet_real(); e.Sowcr = verif_nondet_real(); e.Sogcr = verif_nondet_real(); e.Swu = verif_nondet_real(); e.Sgu = verif_nondet_real();
+    e.maxPcow = verif_nondet_real(); e.maxPcgo = verif_nondet_real(); e.pcowLeverettFactor = verif_nondet_real(); e.pcgoLeverettFactor = verif_nondet_real();
+    e.Krwr = verif_nondet_real(); e.Krgr = verif_nondet_real(); e.Krorw = verif_nondet_real(); e.Krorg = verif_nondet_real(); e.maxKrw = verif_nondet_real(); e.maxKrow = verif_nondet_real(); e.maxKrog = verif_nondet_real(); e.maxKrg = verif_nondet_real();
+    Opm::EclEpsConfig cfg; const bool lev = nondet_bool(); cfg.setEnableLeverettScaling(lev);
+    {   // oil-water: wetting phase water, saturations are Sw
+        Pts p; p.init(e, cfg, Opm::EclTwoPhaseSystemType::OilWater);
+        CEQ(p.saturationPcPoints()[0], e.Swl); CEQ(p.saturationPcPoints()[2], e.Swu);
+        CEQ(p.saturationKrwPoints()[0], e.Swcr); CEQ(p.saturationKrwPoints()[1], 1.0 - e.Sowcr - e.Sgl); CEQ(p.saturationKrwPoints()[2], e.Swu);
+        CEQ(p.saturationKrnPoints()[0], e.Swl + e.Sgl); CEQ(p.saturationKrnPoints()[1], e.Swcr + e.Sgl); CEQ(p.saturationKrnPoints()[2], 1.0 - e.Sowcr);     // oil: So = 1 - Sw (- Sgl)
+        CEQ(p.maxKrw(), e.maxKrw); CEQ(p.maxKrn(), e.maxKrow); CEQ(p.krwr(), e.Krwr); CEQ(p.krnr(), e.Krorw); CEQ(p.maxPcnw(), lev ? e.pcowLeverettFactor : e.maxPcow);
+    }
+    {   // gas-oil: wetting phase oil, saturations are So = 1 - Sg - Swl
+        Pts p; p.init(e, cfg, Opm::EclTwoPhaseSystemType::GasOil);
+        CEQ(p.saturationPcPoints()[0], 1.0 - e.Swl - e.Sgu); CEQ(p.saturationPcPoints()[2], 1.0 - e.Swl - e.Sgl);
+        CEQ(p.saturationKrwPoints()[0], e.Sogcr); CEQ(p.saturationKrwPoints()[1], 1.0 - e.Sgcr - e.Swl); CEQ(p.saturationKrwPoints()[2], 1.0 - e.Swl - e.Sgl);
+        CEQ(p.saturationKrnPoints()[0], 1.0 - e.Swl - e.Sgu); CEQ(p.saturationKrnPoints()[1], e.Sogcr); CEQ(p.saturationKrnPoints()[2], 1.0 - e.Swl - e.Sgcr);    // gas critical: Sg = SGCR
+        CEQ(p.maxKrw(), e.maxKrog); CEQ(p.maxKrn(), e.maxKrg); CEQ(p.krwr(), e.Krorg); CEQ(p.krnr(), e.Krgr); CEQ(p.maxPcnw(), lev ? e.pcgoLeverettFactor : e.maxPcgo);
+    }
+}
